@@ -26,11 +26,40 @@ ASSUMPTIONS = ["reference geometry vf/refgeo.py", "triangles are generated count
 BUDGET = {"quick": {"examples": 170, "workers": 4}, "thorough": {"examples": 2500, "workers": 14}}
 
 
+def _flip_par(o, d1, d2):
+    """parallelogram whose third corner moves through the line origin--corner_1 as p grows from 0 to 1:
+    counter-clockwise corner order for p < 1/2, clockwise for p > 1/2 (or the reverse)."""
+    C = specs.const
+    return {"t": "par", "var": "x", "o": C(o), "c1": C([o[0] + d1[0], o[1] + d1[1]]),
+            "c2": {"k": "affine", "var": "p", "v0": [round(o[0] + d2[0], 4), round(o[1] + d2[1], 4)],
+                   "V1": [[round(-2 * d2[0], 4)], [round(-2 * d2[1], 4)]]}}
+
+
+def _flip_case():
+    import math
+    from hypothesis import strategies as st
+
+    @st.composite
+    def s(draw):
+        o = [draw(specs.num(-3, 3)), draw(specs.num(-3, 3))]
+        al, l1, l2 = draw(specs.num(0, 6.283)), draw(specs.num(0.5, 3)), draw(specs.num(0.5, 3))
+        be = draw(specs.num(0.6, 2.5))
+        d1 = [l1 * math.cos(al), l1 * math.sin(al)]
+        d2 = [l2 * math.cos(al + be), l2 * math.sin(al + be)]
+        k = draw(st.sampled_from([2, 3, 4]))
+        rows = [[draw(st.one_of(specs.num(0.0, 0.3), specs.num(0.7, 1.0)))] for _ in range(k)]
+        return {"dom": {"E": {"t": "boundary", "a": _flip_par(o, d1, d2)}, "kind": "boundary", "pvars": ["p"], "lattice": False, "far": False},
+                "prows": {"p": rows}, "n": draw(st.sampled_from([4, 8, 16])), "rng": draw(st.integers(0, 2 ** 31 - 1))}
+    return s()
+
+
 def strategy(tier):
     from hypothesis import strategies as st
 
     @st.composite
     def s(draw):
+        if draw(st.integers(0, 11)) == 0:
+            return draw(_flip_case())
         dc = draw(specs.domain_case(tier, kinds=("boundary",), dims=(1, 2, 2, 2, 2, 3),
                                     max_depth=3 if tier == "quick" else 4))
         E = dc["E"]
@@ -121,24 +150,44 @@ def run_case(spec, ctx):
         return {"nontrivial": False, "classes": classes, "summary": {"skipped": "ill-conditioned"}}
     decided = undecided = 0
     per_leaf = {}
-    for how in ("random", "grid"):
+    D_orig = D
+    modes = [("random", False), ("grid", False)]
+    if k <= 1 and spec["rng"] % 2 == 0:
+        # the boundary object evaluated with data (D(**values)): its normals are those of the original at these values
+        modes.append(("random", True))
+    for how, evaluated in modes:
         from vf import core as _core
         sub = _core.Ctx(ctx.prop, ctx.tier, ctx.seed, known=_core._NoKnown())
+        D = D_orig
+        if evaluated:
+            vals = {kk: torch.tensor(v[:1], dtype=torch.float32).reshape(1, -1) for kk, v in prows.items()} if k else \
+                {"p": torch.tensor([[0.5]])}
+            try:
+                with warnings.catch_warnings():
+                    warnings.simplefilter("ignore")
+                    with sub.lib("evaluate"):
+                        D = D_orig(**vals)
+            except _core.CaseAborted:
+                ctx.event("evaluation-failed(C17)")
+                continue
+            classes.append("evaluated-boundary")
         try:        # budgeted: a non-terminating / failing sampler is C01's business, not a hang here
             with warnings.catch_warnings():
                 warnings.simplefilter("ignore")
                 with sub.lib("sample"):
-                    P, pen = geo.lib_sample(D, how, spec["n"], prows)
+                    P, pen = geo.lib_sample(D, how, spec["n"], {} if evaluated else prows)
         except _core.CaseAborted:
             ctx.event("sampling-failed(C01):" + (sub.case_violations[0].signature.split("|")[0][:80] if sub.case_violations else "inconclusive"))
             continue
-        if len(P) != spec["n"] * max(k, 1) or not torch.isfinite(P.as_tensor).all():
+        if len(P) != spec["n"] * (1 if evaluated else max(k, 1)) or not torch.isfinite(P.as_tensor).all():
             ctx.event("sampling-rowcount(C02)")
             continue
+        if evaluated:
+            pen = {kk: np.repeat(np.asarray(v[:1], dtype=np.float32).astype(np.float64), len(P), axis=0) for kk, v in penv.items()} if k else {}
         env = build.points_env(P, pen)
         st = rg.status(E, env, tol["tol_b"])
-        params_rep = build.params_points({kk: np.asarray(v) for kk, v in pen.items()}) if k else Points.empty()
-        with ctx.lib("normal", feature=top):
+        params_rep = build.params_points({kk: np.asarray(v) for kk, v in pen.items()}) if k and not evaluated else Points.empty()
+        with ctx.lib("normal" + ("(evaluated boundary)" if evaluated else ""), feature=top):
             with warnings.catch_warnings():
                 warnings.simplefilter("ignore")
                 nrm = D.normal(P, params_rep)
@@ -185,7 +234,7 @@ def run_case(spec, ctx):
             i = int(np.where(badrows)[0][0])
             kind = "inward" if (leaves_bad[i] and (enters_bad[i] or near_vertex[i])) else \
                 ("not-leaving" if leaves_bad[i] else "not-entering")
-            ctx.violation("normal-" + kind, _leaf_at(I, env, i) + ("|" + top if rg.depth(I) else ""),
+            ctx.violation("normal-" + kind, _leaf_at(I, env, i) + ("|" + top if rg.depth(I) else "") + ("|evaluated" if evaluated else ""),
                           f"{badrows.sum()} of {judge.sum()} decided {how} boundary rows: normal {np.round(nv[i], 4).tolist()} at "
                           f"{np.round(env[var][i], 6).tolist()} does not point out of the domain (h={h:.3g})")
     plain = geo.is_plain({"dom": {"E": I, "kind": "boundary"}, "prows": prows})
@@ -203,3 +252,27 @@ def _leaf_at(I, env, i):
         if d < best:
             best, lab = d, geo.node_label(leaf)
     return lab
+
+
+def extra_cases(tier, seed):
+    """pinned: parallelograms whose corner order flips between the parameter rows of one batch; one-sided
+    interval boundaries and boundaries of parameter-free shapes evaluated with data; a repeated polygon vertex."""
+    C = specs.const
+    out = []
+    for j, rows in enumerate(([[0.1], [0.9]], [[0.9], [0.1]], [[0.2], [0.8], [0.05]])):
+        out.append({"dom": {"E": {"t": "boundary", "a": _flip_par([0.5, -1.0], [2.0, 0.5], [-0.4, 1.5])}, "kind": "boundary",
+                            "pvars": ["p"], "lattice": False, "far": False}, "prows": {"p": rows}, "n": 8, "rng": 2 * (seed + j) + 1})
+    I1 = {"t": "interval", "var": "u", "lo": C([-0.7]), "hi": C([1.9])}
+    I2 = {"t": "interval", "var": "u", "lo": C([0.5]), "hi": {"k": "affine", "var": "p", "v0": [1.0], "V1": [[2.0]]}}
+    for j, (I, side, prows) in enumerate([(I1, "bright", {}), (I1, "bleft", {}), (I1, "boundary", {}), (I2, "boundary", {"p": [[0.4]]}),
+                                          (I1, "bright", {"p": [[0.4]]})]):
+        out.append({"dom": {"E": {"t": side, "a": I}, "kind": "boundary", "pvars": sorted(prows), "lattice": False, "far": False},
+                    "prows": prows, "n": 4, "rng": 2 * (seed + j)})
+    L = [[0, 0], [3, 0], [3, 1], [1, 1], [1, 3], [0, 3]]
+    for j, dup in enumerate((0, 2, 5)):
+        out.append({"dom": {"E": {"t": "boundary", "a": {"t": "poly", "var": "x", "verts": L, "hole": None, "dup": dup}}, "kind": "boundary",
+                            "pvars": [], "lattice": True, "far": False}, "prows": {}, "n": 33, "rng": 2 * (seed + j) + 1})
+    sq = [[-2, -2], [2, -2], [2, 2], [-2, 2]]
+    out.append({"dom": {"E": {"t": "boundary", "a": {"t": "poly", "var": "x", "verts": sq, "hole": [[-1, -1], [-1, 1], [1, 1], [1, -1]], "dup": 1}},
+                        "kind": "boundary", "pvars": [], "lattice": True, "far": False}, "prows": {}, "n": 33, "rng": 2 * seed + 1})
+    return out
